@@ -28,6 +28,7 @@ fn weights(prop: Prop) -> Vec<(AKind, u32)> {
             (ScopeDrop, 2),
             (LifetimeBind, 5),
             (LifetimeCheck, 6),
+            (LifetimeWaiter, 1),
             (LifetimeDrop, 1),
             (SyncBroker, 2),
             (Yield, 6),
@@ -123,6 +124,7 @@ fn weights(prop: Prop) -> Vec<(AKind, u32)> {
             (ScopeEnd, 1),
             (LifetimeBind, 1),
             (LifetimeCheck, 1),
+            (LifetimeWaiter, 1),
             (HandleClone, 1),
             (HandleDrop, 1),
             (IntroRegister, 2),
